@@ -100,7 +100,7 @@ class State:
                         ok = False
                         break
                     sub[p] = x
-                elif sp.simplify(p - x) != 0:
+                elif p != x and sp.expand(p - x) != 0:  # subscripts are polynomials: expansion decides equality
                     ok = False
                     break
             if ok:
@@ -321,3 +321,32 @@ class State:
     # -- queries --------------------------------------------------------------
     def cell(self, base, *idx):
         return self.read_cell(base, tuple(sp.sympify(x) for x in idx))
+
+
+def canon(e):
+    """Canonical form for structural comparison of closed forms: trig arguments expanded, factors that do not depend
+    on a summation variable pulled out of the Sum, everything expanded."""
+    e = sp.sympify(e)
+    e = e.replace(lambda f: isinstance(f, (sp.cos, sp.sin, sp.exp)), lambda f: f.func(sp.expand(f.args[0])))
+
+    def pull(f):
+        body = sp.expand(f.function)
+        out = 0
+        for term in sp.Add.make_args(body):
+            indep, dep = term, sp.Integer(1)
+            for lim in f.limits:
+                indep, d2 = indep.as_independent(lim[0], as_Add=False)
+                dep = dep * d2
+            out += indep * sp.Sum(dep, *f.limits)
+        return out
+
+    for _ in range(3):
+        new = e.replace(lambda f: isinstance(f, sp.Sum), pull)
+        if new == e:
+            break
+        e = new
+    return sp.expand(e)
+
+
+def same(a, b):
+    return canon(sp.sympify(a) - sp.sympify(b)) == 0
